@@ -10,7 +10,7 @@ from pvm.ref import frames as F
 
 KINDS = ["tcp", "udp", "icmp", "ipother", "tcp_opts", "frag_first", "icmp_quote", "gre_ip",
          "frag_later", "arp_req", "arp_rep", "other", "llc", "snap0",
-         "snapx", "snap_ip", "lldp", "ipv6", "qinq", "rarp", "frag_other"]
+         "snapx", "snap_ip", "lldp", "ipv6", "qinq", "rarp", "frag_other", "stag"]
 
 MACS = [bytes.fromhex(x) for x in
         ("000000000001", "000000000002", "0200000000aa", "ffffffffffff",
@@ -151,6 +151,19 @@ def gen_frame (rng, kind=None, tagged=None, pad=None, payload_len=None,
     outer = vlan or (rng.randrange(8), 0, rng.choice([1, 100, 4095]))
     desc["tagged"] = True
     raw = F.eth(dst, src, 0x8100, inner, outer, False)
+  elif k == "stag":
+    # a provider-bridge service tag (802.1ad 0x88a8, or the older 0x9100 /
+    # 0x9200) in front of a customer tag or directly of an IPv4 datagram:
+    # OpenFlow 1.0 knows the 0x8100 tag only, so to it this is an untagged
+    # frame of that type and nothing behind the type is a header field
+    l4 = F.udp(5000, 5001, data, src=sip, dst=dip)
+    tpid = rng.choice([0x88a8, 0x88a8, 0x9100, 0x9200])
+    tci = struct.pack("!H", (rng.randrange(8) << 13) | rng.choice([1, 200, 4094]))
+    if rng.random() < 0.5:
+      body = tci + struct.pack("!HHH", 0x8100, rng.choice([5, 0x2005]), 0x0800) + ip(17, l4)
+    else:
+      body = tci + struct.pack("!H", 0x0800) + ip(17, l4)
+    raw = F.eth(dst, src, tpid, body, vlan, False)
   elif k == "llc":
     raw = F.eth_8023(dst, src, F.llc(0x42, 0x42, 3, data + b"\0\0\0"), vlan)
   elif k == "snap0":
